@@ -489,7 +489,9 @@ def gen_prog(rng, nops):
                 prog.append(f"readdir {d} {rng.choice([1, 2, 64])}")
             prog.append(f"closedir {d}")
         elif r < 98:
-            prog.append(f"copyfile {rng.choice(FILES + ['nope'])} {rng.choice(['c0', 'd0/c1', 'd0/f0', 'nope/c', 'd1'])} {rng.below(2)}")
+            # destinations: fresh, existing (longer / shorter / equal / the source itself / a link to it), missing dir, a directory
+            prog.append(f"copyfile {rng.choice(FILES + ['nope', 'l0'])} {rng.choice(['c0', 'd0/c1', 'nope/c', 'd1', 'l0', 'h0'] + FILES)} "
+                        f"{rng.choice([0, 0, 1, 2, 2, 3, 4, 6])}")
         else:
             prog.append(f"sendfile {S()} {S()} {rng.choice([0, 0, 2])} {rng.choice([1, 10, 100000])}")
     return prog
@@ -549,7 +551,8 @@ def judge_routes(prog, res, force_ref=None):
         sig = "read-single-empty-buf-on-dir-eisdir-vs-0"
     if odd == "uring" and op == "ftruncate" and got == "ftruncate EINVAL" and opline.split()[2] != "0":
         sig = "uring-ftruncate-nonzero-len"
-    return (sig, f"route {odd} differs from {'/'.join(ref_routes)} at op {k} `{opline[:120]}`: {odd} -> `{got[:200]}`, "
+    note = " (all libuv routes agree with each other and deviate from the POSIX-level oracle)" if odd == "posix" else ""
+    return (sig, f"route {odd} differs from {'/'.join(ref_routes)}{note} at op {k} `{opline[:120]}`: {odd} -> `{got[:200]}`, "
                  f"{ref} -> `{want[:200]}`", odd, ref)
 
 
